@@ -2,6 +2,7 @@ package sim
 
 import (
 	"fmt"
+	"regexp"
 	"sort"
 	"time"
 
@@ -389,6 +390,50 @@ func judgeAPI(m *Model, st *Stats) []pbt.Violation {
 	for _, smp := range tr.Samples {
 		tau := smp.At
 		cfg := m.CfgAt(tau)
+		// filtered request at the same instant: exactly the alerts of the unfiltered answer whose status passes the
+		// flags (active: neither silenced nor inhibited) and that route to a receiver matching the anchored expression
+		if smp.FilteredOK && smp.Step < len(m.sc.Steps) && m.sc.Steps[smp.Step].Flags != nil {
+			f := *m.sc.Steps[smp.Step].Flags
+			want := map[string]bool{}
+			for _, a := range smp.Alerts {
+				if !f.Active && a.State == "active" {
+					continue
+				}
+				if !f.Silenced && len(a.SilencedBy) > 0 {
+					continue
+				}
+				if !f.Inhibited && len(a.InhibitedBy) > 0 {
+					continue
+				}
+				if f.Receiver != "" {
+					re := regexp.MustCompile("^(?:" + f.Receiver + ")$")
+					hit := false
+					for _, r := range a.Receivers {
+						if re.MatchString(r) {
+							hit = true
+						}
+					}
+					if !hit {
+						continue
+					}
+				}
+				want[a.Key] = true
+			}
+			gotF := map[string]bool{}
+			for _, a := range smp.Filtered {
+				gotF[a.Key] = true
+			}
+			for k := range want {
+				if !gotF[k] {
+					add(pbt.V("api-alerts-filter", "GET /alerts at %s with %+v omits %s, which the unfiltered answer of the same instant shows with a status that passes the flags", tau.Format(tf), f, k))
+				}
+			}
+			for k := range gotF {
+				if !want[k] {
+					add(pbt.V("api-alerts-filter", "GET /alerts at %s with %+v returns %s, which the flags exclude according to the unfiltered answer of the same instant", tau.Format(tf), f, k))
+				}
+			}
+		}
 		if smp.Alerts != nil || smp.Step == len(m.sc.Steps) {
 			got := map[string]APIAlert{}
 			for _, a := range smp.Alerts {
